@@ -391,6 +391,7 @@ struct Driver
         std::vector<RawViolation> viol, known;
         std::vector<uint64_t> crashed_idx;
         std::map<uint64_t, int> crash_status; // idx -> wait status of the worker that died in it
+        std::map<uint64_t, std::string> crash_text; // idx -> first line of what the dying worker wrote to stderr
         Stats st;
         bool wall_capped = false;
     };
@@ -411,7 +412,10 @@ struct Driver
             {
                 close(pfd[0]);
                 for (auto &o : ws) if (o.fd >= 0) close(o.fd);
-                int dn = open("/dev/null", O_WRONLY); if (dn >= 0) dup2(dn, 2);
+                // sanitizer reports of a pooled worker go to a per-worker file (kept only when the worker dies)
+                std::string ep = out_dir + "/worker-" + std::to_string(w) + ".err";
+                int dn = open(ep.c_str(), O_WRONLY | O_CREAT | O_TRUNC, 0644); if (dn < 0) dn = open("/dev/null", O_WRONLY);
+                if (dn >= 0) dup2(dn, 2);
                 worker_main(w, nw, first, total, shift, &sh[w], pfd[1], "");
             }
             close(pfd[1]);
@@ -492,7 +496,14 @@ struct Driver
                     wk.pid = -1;
                     if (wk.done || stopping) { --alive; continue; }
                     // died: either after a reported violation (exit 3) or a crash inside item last_begin
-                    if (wk.begun_open && !wk.saw_v) { bo.crashed_idx.push_back((uint64_t)wk.last_begin); bo.crash_status[(uint64_t)wk.last_begin] = status; ++bo.items; }
+                    if (wk.begun_open && !wk.saw_v)
+                    {
+                        bo.crashed_idx.push_back((uint64_t)wk.last_begin); bo.crash_status[(uint64_t)wk.last_begin] = status; ++bo.items;
+                        std::string et = read_file(out_dir + "/worker-" + std::to_string(w) + ".err");
+                        size_t p0 = et.find("ERROR:"); if (p0 == std::string::npos) p0 = et.find("runtime error"); if (p0 == std::string::npos) p0 = 0;
+                        size_t e0 = et.find('\n', p0);
+                        bo.crash_text[(uint64_t)wk.last_begin] = et.substr(p0, (e0 == std::string::npos ? et.size() : e0) - p0).substr(0, 300);
+                    }
                     uint64_t nextfirst = (uint64_t)(wk.last_begin + 1);
                     bool more = false;
                     for (uint64_t i = nextfirst; i < total; ++i) if ((int)((i + (uint64_t)shift) % (uint64_t)nw) == w) { more = true; break; }
@@ -589,7 +600,7 @@ struct Driver
                 ++env_kills;
                 continue;
             }
-            RawViolation x; x.idx = idx; x.crashed = true; x.cls = "nonreproducible-crash"; x.site = classify_crash(stt, ""); x.path = ""; bo.viol.push_back(x);
+            RawViolation x; x.idx = idx; x.crashed = true; x.cls = "nonreproducible-crash"; x.site = classify_crash(stt, "") + (bo.crash_text.count(idx) && !bo.crash_text[idx].empty() ? ": " + bo.crash_text[idx] : std::string()); x.path = ""; bo.viol.push_back(x);
         }
         // group, shrink, gate
         int exit_code = 0;
@@ -655,6 +666,7 @@ struct Driver
         for (auto const &rv : bo.known) if (!rv.path.empty()) unlink(rv.path.c_str());
         for (auto const &rv : bd.known) if (!rv.path.empty()) unlink(rv.path.c_str());
         for (auto const &rv : bd.viol) if (!rv.path.empty()) unlink(rv.path.c_str());
+        { std::string cmd = "rm -f '" + out_dir + "'/worker-*.err 2>/dev/null"; if (system(cmd.c_str()) != 0) {} }
         double const wall = now_s() - t0;
         write_evidence(bo, wall, compared, mismatches, new_violations, known_lines, viol_lines);
         if (new_violations) exit_code = 1;
